@@ -1289,10 +1289,26 @@ func (fr *frame) atCallAsserts(name, alt string, pnames []string, ptypes []types
 		blk := in.Block()
 		env.lookup = func(name string) (CVal, bool) { return fr.lookupVarAt(name, blk) }
 		env.lookupAddr = fr.lookupAddr
+		var actuals []ssa.Value
+		if ci, ok := in.(ssa.CallInstruction); ok {
+			cc := ci.Common()
+			actuals = cc.Args
+			if cc.IsInvoke() {
+				actuals = append([]ssa.Value{cc.Value}, cc.Args...)
+			}
+		}
 		for k, p := range pnames {
 			if k < len(args) && p != "" && p != "_" {
 				if t, ok := args[k].(Term); ok {
-					env.bound[p] = CVal{t, ptypes[k]}
+					pt := ptypes[k]
+					if len(actuals) == len(args) && isMapType(pt) {
+						// a map parameter denotes the actual argument: its contents live in the
+						// argument's alias region, not in the region of the callee's parameter
+						if reg := fc.e.regionOf(actuals[k]); reg != "" {
+							pt = withReg(pt, reg)
+						}
+					}
+					env.bound[p] = CVal{t, pt}
 				} else if cl, ok := args[k].(*Closure); ok {
 					env.bound[p] = CVal{Term{strconv.Itoa(fc.e.funcTag(fnKey(cl.Fn))), SInt}, ptypes[k]}
 				}
